@@ -116,7 +116,7 @@ def h_roundtrip(ctx, fmt, chroms, auto=False):
         text1 = text_of(ga, fmt)
         back = tabio.read(io.StringIO(text1), "auto" if auto else fmt)
     except Exception as exc:
-        ctx.claim(False, f"{fmt} write/read raised {type(exc).__name__}: {str(exc)[:80]}")
+        ctx.claim(False, f"{fmt} write/read raised {type(exc).__name__}", info=str(exc)[:200])
         return
     got = []
     for r in back.data.itertuples(index=False):
@@ -192,7 +192,7 @@ def h_readonly(ctx, fmt, chroms):
     try:
         back = tabio.read(io.StringIO(text), fmt)
     except Exception as exc:
-        ctx.claim(False, f"{fmt} read raised {type(exc).__name__}: {str(exc)[:80]}")
+        ctx.claim(False, f"{fmt} read raised {type(exc).__name__}", info=str(exc)[:200])
         return
     got = [(r.chromosome, r.start, r.end, "-") for r in back.data.itertuples(index=False)]
     same_multiset(ctx, got, [(r[0], r[1], r[2], "-") for r in rows], f"{fmt}: 1-based file coordinates are read to 0-based half-open")
@@ -265,7 +265,7 @@ def h_seg_roundtrip(ctx, nsamples):
     try:
         parsed = list(segio.parse_seg(io.StringIO(text)))
     except Exception as exc:
-        ctx.claim(False, f"parse_seg raised {type(exc).__name__}: {str(exc)[:80]}")
+        ctx.claim(False, f"parse_seg raised {type(exc).__name__}", info=str(exc)[:200])
         return
     ctx.claim([sid for sid, _ in parsed] == ids, "import-seg yields the samples in order, each under its ID")
     for (sid, df), rows in zip(parsed, allrows):
